@@ -426,6 +426,8 @@ def run(ck):
     # ... a directory (open succeeds, every read fails with EISDIR); a file that ends in the middle of a record; an empty file
     states.append(('file/allds:utmp_is_a_directory', cfg['file/allds'], 0, lambda env: os.mkdir(os.path.join(env.w, 'utmp')), None, None, None, None, None, 'utmp'))
     states.append(('file/allds:utmp_ends_inside_a_record', cfg['file/allds'], 0, lambda env: open(os.path.join(env.w, 'utmp'), 'wb').write(b'\0' * (384 + 100)), None, None, None, None, None, 'utmp'))
+    # ... an endless source in its place (a symbolic link to /dev/zero): every read succeeds, for ever
+    states.append(('file/allds:utmp_is_an_endless_device', cfg['file/allds'], 0, lambda env: os.symlink('/dev/zero', os.path.join(env.w, 'utmp')), None, None, None, None, None, 'utmp'))
     states.append(('file/allds:utmp_is_empty', cfg['file/allds'], 0, lambda env: open(os.path.join(env.w, 'utmp'), 'wb').close(), None, None, None, None, None, 'utmp'))
     states = [s + (None,) * (10 - len(s)) for s in states]
     st_res = pmap(lambda s: one_run(sx, v['h_one'], wdir(), s[1], [], uid=s[2], prep=s[3], std_state=s[4], msglen=s[5], fsize=s[6], ctty=s[7], pending=s[8], utmp=s[9]), states)
